@@ -362,7 +362,7 @@ def compaction_crash_history(args):
             # replay is the known finding state-differs-after-restart/tables/changed/T_USER/rows/admin (judged by the other histories)
             diffs = [x for x in diffs if not x[0].startswith("/tables/T_USER/rows/admin")]
             if diffs:
-                p0 = diffs[0][0].split("/")
+                p0 = [re.sub(r"\[\d+\]$", "", x) for x in diffs[0][0].split("/")]
                 found.append({"symptom": "state-differs-after-restart", "component": p0[1] if len(p0) > 1 else "-", "direction": "changed", "field": "/".join(p0[2:4]),
                               "detail": {"diffs": [[pp, json.dumps(x)[:120], json.dumps(y)[:120]] for pp, x, y in diffs[:5]], "n_diffs": len(diffs)}, "k": k})
                 break
@@ -506,7 +506,9 @@ def run(tier, seed):
         results = []
         with ThreadPoolExecutor(max_workers=common.NCPU) as ex:
             futs = [ex.submit(one_history, j) for j in jobs] + [ex.submit(interrupted_compaction, j) for j in ic]
-            futs += [ex.submit(compaction_crash_history, (wd, seed * 100000 + 90000 + i, [250, 600][i % 2])) for i in range(4 if tier == "quick" else 24)]
+            # long histories first (they take about a minute each): with a few thousand entries the snapshot writer is still draining
+            # its queue when the compaction moves on, which is the window a missing flush barrier would open
+            futs = [ex.submit(compaction_crash_history, (wd, seed * 100000 + 90000 + i, [1200 if tier == "quick" else 2500, 300][i % 2])) for i in range(4 if tier == "quick" else 24)] + futs
             for f in futs:
                 results.append(f.result())
         agg = {"restarts": 0, "writes": 0, "rejected": 0, "histories_with_compaction": 0, "histories_with_3plus_compactions": 0, "kinds_seen": set()}
